@@ -1022,7 +1022,8 @@ inline int sim_main(World& w, int argc, char** argv)
     printf("BEGIN %s %" PRIu64 " %" PRIu64 "\n", kind, idx, rs);
     fflush(stdout);
     alarm(g_run_alarm_s);
-    Exec e = execute(w, p, &known);
+    bool will_recheck = det_every && ((evaluations + 1) % det_every == 0);
+    Exec e = execute(w, p, &known, will_recheck); // traced when it is going to be re-executed, to show a divergence
     alarm(0);
     evaluations++;
     total.merge(e.st);
@@ -1061,7 +1062,7 @@ inline int sim_main(World& w, int argc, char** argv)
     }
     if (det_every && (evaluations % det_every == 0)) {
       g_progress.phase = 2;
-      Exec e2 = execute(w, p, &known);
+      Exec e2 = execute(w, p, &known, true);
       det_checked++;
       if (e2.hash != e.hash) {
         printf("NONDETERMINISM idx=%" PRIu64 " runseed=%" PRIu64 " h1=%s h2=%s\n",
@@ -1069,6 +1070,17 @@ inline int sim_main(World& w, int argc, char** argv)
                rs,
                hex64(e.hash).c_str(),
                hex64(e2.hash).c_str());
+        {
+          size_t n = std::min(e.lines.size(), e2.lines.size()), k = 0;
+          while (k < n && e.lines[k] == e2.lines[k])
+            k++;
+          printf("NONDET-DIFF event %zu of %zu/%zu: [%s] vs [%s]\n",
+                 k,
+                 e.lines.size(),
+                 e2.lines.size(),
+                 k < e.lines.size() ? e.lines[k].c_str() : "<end>",
+                 k < e2.lines.size() ? e2.lines[k].c_str() : "<end>");
+        }
         std::string path = outdir + "/nondet-" + w.name() + "-" + std::to_string(rs) + ".json";
         Exec t1 = execute(w, p, &known, true);
         write_replay(path, w, p, "-", "nondeterminism", "", rs, e.hash, SIM_BUILD_NAME, t1.lines);
